@@ -627,6 +627,9 @@ func (c *checker) checkSeq(s *Seq) {
 	// ---- immutability after a successful Compile (reference-free)
 	if im != nil {
 		rep.Count("sequences_compiled", 1)
+		if strings.HasPrefix(s.Family, "shape") {
+			rep.Count("structure_sequences_compiled", 1)
+		}
 		if c.sampled < 3 {
 			c.sampled++
 			rep.Sample(map[string]any{"sequence": s, "outcome_vector_incl_appended_calls": string(first.vec), "appended_after_compile": opsText(ext[len(ops):])})
@@ -759,13 +762,16 @@ func TestCheck(t *testing.T) {
 	for _, f := range families {
 		famDesc = append(famDesc, fmt.Sprintf("%s(%d calls, length ≤%d)", f.name, len(f.alpha), f.maxLen(cfg.Thorough())))
 	}
-	rule := fmt.Sprintf("A case is one construction sequence (Graph, Chain or Workflow front end) executed %d times on fresh eino objects and once by the reference well-formedness checker; "+
+	rule := fmt.Sprintf("A case is one construction sequence (Graph, Chain or Workflow front end) executed %d times on fresh eino objects (30 times: the Workflow families / base programs with field-mapped passthrough nodes and every sampled structure, where the order in which the implementation iterates its maps can matter) and once by the reference well-formedness checker; "+
 		"EXHAUSTIVE sub-spaces (children that only enumerate): (1) every call sequence up to the stated length over each family alphabet after the family's prelude, ≤3 node keys: %s; "+
 		"(2) every call of the front end's full alphabet (graph %d, chain %d, workflow %d calls) inserted before / substituted for every position of each of %d well-formed base programs. "+
 		"(3) late operations on retained objects: %d well-formed scenarios (workflow with field mappings / static values / branch / nested graphs, graph with branches / nested graph, chain and workflow nodes, chain with parallel / branch / nested graphs), "+
 		"each compiled with up to 3 option sets (plain, interrupt-before, interrupt-after), then every pair (late operation, Compile variant) and (Compile variant, late operation)%s, where the late operations (%d in total) are "+
 		"every mutating method of every retained object (WorkflowNode handles incl. End(), Workflow, Graph, Chain, Parallel, ChainBranch, nested graphs) and every mutation of a retained argument (end-node maps incl. GetEndNode(), field-mapping slices, field paths, interrupt-node slices, option and callback slices). "+
-		"SAMPLED: %d random longer sequences (mutated base programs, free sequences of 6..14 calls; every 4th a random sequence of 4..8 late operations) in the remaining children. "+
+		"SAMPLED: %d cases in the remaining children: of every 10, 3 random longer call sequences (mutated base programs, free sequences of 6..14 calls), 1 random sequence of 4..8 late operations and "+
+		"6 random STRUCTURES (a typed skeleton of 2..8 nodes on any front end with keyed lambda / passthrough nodes, field-mapped Workflow inputs on and from passthrough nodes, branches, data-only inputs, control-only dependencies, "+
+		"graphs added as nodes up to two levels deep with their own compile options, at most one deliberate violation - a loop closed through an edge / branch / input / data-only input / dependency, an option set that is invalid for the front end, an uninferable passthrough, a mutation - "+
+		"lowered to calls in a random order and executed 30 times on fresh objects). "+
 		"Distinct = distinct (front end, state, call sequence); non-trivial = the reference predicts a successful Compile (immutability phase runs: later Add*/Compile, re-run of the first runnable on %d inputs) "+
 		"or at least two accepted calls before the first rejection.",
 		reps, strings.Join(famDesc, ", "), len(fullGraph), len(fullChain), len(fullWorkflow), len(bases),
@@ -910,6 +916,20 @@ func TestCheck(t *testing.T) {
 	rep.Require("late_runs_interrupted_before_the_late_operations", 100)
 	for _, n := range lateOpNames() {
 		rep.Require("late_op/"+n, 1)
+	}
+	// the structure workload and the classes it is there for
+	rep.Require("structure_sequences", 1000)
+	rep.Require("structure_sequences_compiled", 100)
+	for _, t := range []string{"keyed-passthrough", "mapped-at-passthrough", "nested", "branch", "data-only-input", "dependency", "invalid-options", "untyped-passthrough",
+		"loop-closed-by-edge", "loop-closed-by-branch", "loop-closed-by-input", "loop-closed-by-data-only-input", "loop-closed-by-dependency"} {
+		rep.Require("structure_with/"+t, 20)
+	}
+	for _, r := range []string{"cycle-in-all-predecessor-mode/closed-by-branch", "cycle-in-all-predecessor-mode/closed-by-data-only-input"} {
+		rep.Require("rule/"+r, 10)
+	}
+	for _, r := range []string{"cycle-in-all-predecessor-mode", "cycle-in-all-predecessor-mode/closed-by-branch", "cycle-in-all-predecessor-mode/closed-by-data-only-input",
+		"max-steps-in-all-predecessor-mode", "trigger-mode-on-chain-or-workflow", "uninferred-passthrough", "no-exit-edge"} {
+		rep.Require("rule-in-nested-graph/"+r, 5)
 	}
 	for _, r := range []string{"reserved-key", "duplicate-key", "unknown-node", "duplicate-edge", "edge-from-end", "edge-to-start", "no-entry-edge", "no-exit-edge",
 		"uninferred-passthrough", "cycle-in-all-predecessor-mode", "single-target-branch", "state-handler-without-state", "handler-state-type", "handler-value-type",
